@@ -104,11 +104,22 @@ impl ToTokens for Expansion {
                         inc = 0;
                     }
                     let ret = {
-                        let inc = Literal::usize_unsuffixed(inc);
+                        // The offset is added in steps that fit every integer type (`i8` included):
+                        // `(-128) + 128` would not be a valid `i8` expression, `(-128) + 127 + 1` is.
+                        let mut rest = inc;
+                        let mut offset = TokenStream::new();
+                        loop {
+                            let step = Literal::usize_unsuffixed(rest.min(127));
+                            offset.extend(quote! { + #step });
+                            rest -= rest.min(127);
+                            if rest == 0 {
+                                break;
+                            }
+                        }
                         fields.is_empty().then_some((
                             format_ident!("__DISCRIMINANT_{}", ident),
                             (
-                                quote! { (#last_discriminant) + #inc },
+                                quote! { (#last_discriminant) #offset },
                                 quote! { #ident #fields },
                             ),
                         ))
